@@ -39,48 +39,72 @@ func c16Conv(c *Ctx) {
 		{"tag:v1", ws(g1), 0, true}, {"tag:none", ws(), 0, true}, {"tag:v4,v2", ws(g4, g2), 4, true},
 	}
 	allowed := []int{polV2, polV3, polV2 | polV3}
-	for _, o := range offers {
-		for _, al := range allowed {
-			pol := al
-			if o.tagged {
-				pol |= polWSStart
-			}
-			pols := []int{pol, polV2 | polV3}
-			s := newSys(pols, c.R.U64())
-			text := []byte("hello there")
-			m := o.msg(text)
-			var coq string
-			if o.tagged {
-				coq = fmt.Sprintf("WPlain %s (Some %d)", coqBytes(text), o.versions)
-			} else {
-				coq = fmt.Sprintf("WQuery %d", o.versions)
-			}
-			nOut := len(s.ps[1].outs)
-			plain := s.Inject(1, m, coq)
-			want := 0
-			if o.versions&8 != 0 && al&polV3 != 0 {
-				want = 3
-			} else if o.versions&4 != 0 && al&polV2 != 0 {
-				want = 2
-			}
-			got := 0
-			for _, out := range s.ps[1].outs[nOut:] {
-				if w := parseWire(out); w.kind == 3 && w.typ == 0x02 {
-					got = w.ver
+	// what may have been received before the offer without starting anything: stray or incomplete fragments of either
+	// format, an encoded message of either version that is rejected, garbage - none of it may influence the version chosen
+	strays := [][]byte{nil,
+		[]byte("?OTR,1,3,?OTR:AAICAAAAxJh7YMX8vCry1O+3ewL88,"), []byte("?OTR,3,2,AAAA,"), []byte("?OTR,0,0,AAAA,"),
+		[]byte("?OTR|1f2e3d4c|00000000,00001,00003,?OTR:AAMC,"), []byte("?OTR|1f2e3d4c|00000000,00004,00003,AAAA,"),
+		[]byte("?OTR:AAIDAAAAAAAAAAAA."), []byte("?OTR:AAMDH48tPAAAAAAAAAAAAAAAAAAA."), []byte("?OTR:AAIK"), []byte("?OTR Error: nothing")}
+	for si, stray := range strays {
+		for _, o := range offers {
+			for _, al := range allowed {
+				if si > 0 && o.versions != 12 && o.versions != 4 && o.versions != 8 {
+					continue
+				}
+				pol := al
+				if o.tagged {
+					pol |= polWSStart
+				}
+				pols := []int{pol, polV2 | polV3}
+				s := newSys(pols, c.R.U64())
+				if stray != nil {
+					func() {
+						defer func() { recover() }()
+						s.ps[1].c.Receive(stray)
+					}()
+				}
+				text := []byte("hello there")
+				m := o.msg(text)
+				var coq string
+				if o.tagged {
+					coq = fmt.Sprintf("WPlain %s (Some %d)", coqBytes(text), o.versions)
+				} else {
+					coq = fmt.Sprintf("WQuery %d", o.versions)
+				}
+				nOut := len(s.ps[1].outs)
+				plain := s.Inject(1, m, coq)
+				want := 0
+				if o.versions&8 != 0 && al&polV3 != 0 {
+					want = 3
+				} else if o.versions&4 != 0 && al&polV2 != 0 {
+					want = 2
+				}
+				got := 0
+				for _, out := range s.ps[1].outs[nOut:] {
+					if w := parseWire(out); w.kind == 3 && w.typ == 0x02 {
+						got = w.ver
+					}
+				}
+				trig := fmt.Sprintf("offer=%s,allowed=%d", o.name, al)
+				if stray != nil {
+					trig += fmt.Sprintf(",after-stray=%d", si)
+				}
+				if got != want {
+					c.Violate("wrong-version-chosen", trig, fmt.Sprintf("the exchange started with version %d, the highest version offered and allowed is %d", got, want), s.trace)
+				}
+				if cv := otr3.VerifSnapshot(s.ps[1].c).Version; want != 0 && cv != want {
+					c.Violate("wrong-version-chosen", trig, fmt.Sprintf("the conversation committed to version %d, expected %d", cv, want), s.trace)
+				}
+				if o.tagged && string(plain) != string(text) {
+					c.Violate("tag-removal-changes-text", trig, fmt.Sprintf("text %q came back as %q", text, plain), s.trace)
+				}
+				c.Count("offer:" + o.name)
+				if stray == nil {
+					c.AddScenario(s, pols)
+				} else {
+					c.Count("offer-after-stray-input")
 				}
 			}
-			trig := fmt.Sprintf("offer=%s,allowed=%d", o.name, al)
-			if got != want {
-				c.Violate("wrong-version-chosen", trig, fmt.Sprintf("the exchange started with version %d, the highest version offered and allowed is %d", got, want), s.trace)
-			}
-			if cv := otr3.VerifSnapshot(s.ps[1].c).Version; want != 0 && cv != want {
-				c.Violate("wrong-version-chosen", trig, fmt.Sprintf("the conversation committed to version %d, expected %d", cv, want), s.trace)
-			}
-			if o.tagged && string(plain) != string(text) {
-				c.Violate("tag-removal-changes-text", trig, fmt.Sprintf("text %q came back as %q", text, plain), s.trace)
-			}
-			c.Count("offer:" + o.name)
-			c.AddScenario(s, pols)
 		}
 	}
 }
